@@ -94,6 +94,17 @@ func reachFrom(e *fxEngine, roots []*ssa.Function, followSDF bool) map[*ssa.Func
 					visit(g)
 				}
 			}
+			// a module function handed over as a value (a split function given to a scanner, a
+			// comparator given to sort) is run by whoever receives it
+			var ops [8]*ssa.Value
+			for _, op := range ins.Operands(ops[:0]) {
+				if op == nil || *op == nil {
+					continue
+				}
+				if g, ok := (*op).(*ssa.Function); ok && inModule(g) {
+					visit(g)
+				}
+			}
 		})
 	}
 	for _, r := range roots {
